@@ -111,6 +111,16 @@ theorem tfeed_alive {σ : Type} (C : CacheOps σ) (limit rx now t : Nat) (tc : T
   · have hd : ¬ tc.deadline ≤ t := by omega
     simp [hc, hd]
 
+/-- what restarts the timer: an in-time arrival moves the deadline to `t + rx` exactly when at least one request became
+    complete — whether or not anything was written for it (a quiet store, a missing quiet get) — and leaves it where it was
+    when the bytes completed nothing -/
+theorem tfeed_deadline {σ : Type} (C : CacheOps σ) (limit rx now t : Nat) (tc : TConn) (s : σ) (chunk : Bytes)
+    (hc : tc.conn.closed = false) (ht : t < tc.deadline) :
+    (tfeed C limit rx now t tc s chunk).1.deadline =
+      if (drain limit tc.conn.pst (tc.conn.buf ++ chunk)).1.length = 0 then tc.deadline else t + rx := by
+  have hd : ¬ tc.deadline ≤ t := by omega
+  simp [tfeed, hc, hd]
+
 /-- one arrival at or after the deadline: the connection has been dropped, the bytes are never read — not executed, not
     answered, the store untouched -/
 theorem tfeed_timed_out {σ : Type} (C : CacheOps σ) (limit rx now t : Nat) (tc : TConn) (s : σ) (chunk : Bytes)
@@ -210,3 +220,4 @@ end Memc
 #print axioms Memc.progress_of_frame
 #print axioms Memc.tfeedSeq_closed
 #print axioms Memc.C18_silent_client_dropped
+#print axioms Memc.tfeed_deadline
